@@ -11,7 +11,7 @@ import (
 )
 
 var c17Floor = []string{"after-rejected", "after-other-reading", "comment", "opts.none", "opts.W", "opts.P", "opts.I", "opts.WP", "opts.WI", "opts.PI", "opts.WPI", "spell.dq", "spell.brackets", "spell.neutral-under-option",
-	"lit.dquote", "lit.squote", "lit.backtick", "lit.backslash", "lit.bracket", "ident.dquote-in-backtick", "ident.bracket", "ident.space", "array.nested", "array.empty", "array.with-bracket-literal", "array.glued", "ident.backslash-end", "ident.backslash-end.dq", "ident.dquote-doubled", "ident.backtick-inside", "path.bracket", "where", "shape.derived", "shape.cte", "shape.union", "shape.with-shadow", "shape.with-body"}
+	"lit.dquote", "lit.squote", "lit.backtick", "lit.backslash", "lit.bracket", "ident.dquote-in-backtick", "ident.bracket", "ident.space", "array.nested", "array.empty", "array.with-bracket-literal", "array.glued", "ident.backslash-end", "ident.backslash-end.dq", "ident.dquote-doubled", "ident.backtick-inside", "path.bracket", "where", "shape.derived", "shape.cte", "shape.union", "shape.with-shadow", "shape.with-body", "wrapped.root-document"}
 
 func init() {
 	fw.Register(&fw.Prop{
@@ -131,6 +131,14 @@ func c17Run(c *fw.Case) {
 		row["arr"] = []any{map[string]any{"v": float64(c.Intn(9))}, map[string]any{"v": "s"}}
 	}
 	d := DocOf(t)
+	// a document whose one top-level element is itself called root: Wrapped()
+	// wraps it like any other input
+	fromPath := "root.t1"
+	if o.Wrapped && (force == "wrapped.root-document" || (force == "" && c.Chance(0.3))) {
+		d = map[string]any{"root": d}
+		fromPath = "root.root.t1"
+		feats = append(feats, "wrapped.root-document")
+	}
 	// items
 	var items []c17Item
 	hostile := false
@@ -291,10 +299,11 @@ func c17Run(c *fw.Case) {
 		if glued && brackets && len(parts) > 0 && strings.HasPrefix(parts[0], "[") {
 			parts[0] = "\x00" + parts[0]
 		}
-		from := gen.Ident("root.t1", q)
-		if bareFrom {
+		from := gen.Ident(fromPath, q)
+		if bareFrom && fromPath == "root.t1" {
 			// the table named without quotes: the text can then be read without the option too
-			from = "root.t1"
+			// (a path of three parts cannot be written without quotes)
+			from = fromPath
 		}
 		sql := strings.Replace("SELECT "+strings.Join(parts, ", ")+" FROM "+from, "SELECT \x00", "SELECT", 1)
 		if where != nil {
